@@ -150,6 +150,36 @@ static bool parseSpec(const std::string& spec, std::string& base,
     return !base.empty();
 }
 
+// composite base types:  T ::= builtin | L(T) | U(T+T+...)   -> named simple types c1, c2, ... ; returns the QName to use
+static std::string genComposite(const std::string& t, size_t& pos, std::string& defs, int& counter) {
+    if (t.compare(pos, 2, "L(") == 0) {
+        pos += 2;
+        std::string item = genComposite(t, pos, defs, counter);
+        if (pos < t.size() && t[pos] == ')') pos++;
+        std::string name = "c" + std::to_string(++counter);
+        defs += " <xs:simpleType name=\"" + name + "\"><xs:list itemType=\"" + item + "\"/></xs:simpleType>\n";
+        return "t:" + name;
+    }
+    if (t.compare(pos, 2, "U(") == 0) {
+        pos += 2;
+        std::string members;
+        while (pos < t.size() && t[pos] != ')') {
+            if (t[pos] == '+') { pos++; continue; }
+            if (!members.empty()) members += " ";
+            members += genComposite(t, pos, defs, counter);
+        }
+        if (pos < t.size()) pos++;
+        std::string name = "c" + std::to_string(++counter);
+        defs += " <xs:simpleType name=\"" + name + "\"><xs:union memberTypes=\"" + members + "\"/></xs:simpleType>\n";
+        return "t:" + name;
+    }
+    size_t e = pos;
+    while (e < t.size() && t[e] != '+' && t[e] != ')') e++;
+    std::string b = t.substr(pos, e - pos);
+    pos = e;
+    return "xs:" + b;
+}
+
 static TypeInfo& getType(const std::string& spec) {
     auto it = gTypes.find(spec);
     if (it != gTypes.end()) return it->second;
@@ -167,6 +197,11 @@ static TypeInfo& getType(const std::string& spec) {
     if (base.size() > 4 && base.compare(base.size() - 4, 4, "list") == 0) {
         s += " <xs:simpleType name=\"t0\"><xs:list itemType=\"xs:" + base.substr(0, base.size() - 4) + "\"/></xs:simpleType>\n";
         prev = "t:t0";
+    }
+    if (base.compare(0, 2, "L(") == 0 || base.compare(0, 2, "U(") == 0) {
+        size_t pos = 0; int counter = 0; std::string defs;
+        prev = genComposite(base, pos, defs, counter);
+        s += defs;
     }
     if (groups.empty()) groups.push_back(std::vector<std::pair<std::string, std::string> >());
     for (size_t g = 0; g < groups.size(); g++) {
